@@ -99,3 +99,28 @@ PROPS["C19"] = dict(
     assumptions=["a single write(2) on an O_APPEND descriptor is atomic with respect to other writers of the same file",
                  "fmt.Fprint issues one Write call for its whole argument"],
 )
+
+PROPS["C17"] = dict(
+    modules=["Proofs.C17"],
+    theorems=["Goflow.C17.inv_init", "Goflow.C17.inv_step", "Goflow.C17.inv_run", "Goflow.C17.conservation",
+              "Goflow.C17.decoded_dropped_disjoint", "Goflow.C17.quiescent_accounting", "Goflow.C17.blocking_no_drop",
+              "Goflow.C17.skeleton_matches", "Goflow.C17.bufInv_init", "Goflow.C17.bufInv_step", "Goflow.C17.buffer_exclusive"],
+    generators=[dict(name="C17", quick=10, thorough=200, subseeds=4)],
+    harness=["impl"],
+    count_all=True,
+    watchdog_ms=60000,
+    assumptions=["kernel-level loss before ReadFromUDP is outside the model; the udp.read hook gives the exact number of datagrams taken from the kernel",
+                 "Go channels, sync.Pool and sync.WaitGroup behave as documented (they are the step rules of the transition system)"],
+)
+
+PROPS["C18"] = dict(
+    modules=["Proofs.C18"],
+    theorems=["Goflow.C18.start_stop_results", "Goflow.C18.shutdown_order", "Goflow.C18.skeleton_matches",
+              "Goflow.C18.drainInv_init", "Goflow.C18.drainInv_step", "Goflow.C18.drainInv_run",
+              "Goflow.C18.stop_drains", "Goflow.C18.stop_not_stuck"],
+    generators=[dict(name="C18", quick=4, thorough=6, subseeds=1)],
+    harness=["impl"],
+    count_all=True,
+    watchdog_ms=60000,
+    assumptions=["decoder calls return (the `finish` step is always eventually taken); socket rebinding and process exit are runtime behaviour seen only by the harness"],
+)
